@@ -73,7 +73,7 @@ func selftest(seed uint64, seeds, par int) int {
 							r := b.execRun(dir, 100+w, c, execOpts{tape: true, events: ev, procs: procs})
 							n++
 							if r.infra != "" {
-								diffs = append(diffs, "infra: "+r.infra)
+								diffs = append(diffs, fmt.Sprintf("pipe=%v procs=%d rep=%d infra: %s", pipe, procs, rep, r.infra))
 								continue
 							}
 							raw, _ := os.ReadFile(ev)
